@@ -20,8 +20,7 @@ std::vector<NamedSet> *sets = nullptr;
 void initSets()
 {
     sets = new std::vector<NamedSet>;
-    const CharacterSet unreserved = (CharacterSet("unreserved", "-._~") + CharacterSet::ALPHA + CharacterSet::DIGIT).rename("unreserved");
-    sets->push_back({"unreserved", unreserved});
+    sets->push_back({"unreserved", CharacterSet::RFC3986_UNRESERVED()});      // Squid's own RFC 3986 unreserved set
     // what Uri::absolute() uses for userinfo: unreserved / sub-delims / ":" (without "%")
     sets->push_back({"userinfo", (CharacterSet("ui", ":-._~!$&'()*+,;=") + CharacterSet::ALPHA + CharacterSet::DIGIT).rename("userinfo")});
     sets->push_back({"none", CharacterSet("none", "")});
@@ -55,7 +54,7 @@ std::string str(const SBuf &b) { return std::string(b.rawContent(), b.length());
 uint64_t nEncode = 0, nDecode = 0, nEscape = 0, nUnescape = 0, nTriplets = 0, nGrow = 0;
 size_t longestEscaped = 0;
 
-// AnyP::Uri::Encode + Decode on one byte string; returns the number of triplets produced
+// AnyP::Uri::Encode + Decode on one byte string; returns the number of triplets produced with the unreserved set
 unsigned checkUri(const std::string &s, const std::string &label)
 {
     unsigned trip = 0;
@@ -72,7 +71,7 @@ unsigned checkUri(const std::string &s, const std::string &label)
             const unsigned char c = e[i];
             if (c == '%') {
                 if (!(i + 2 < e.size()) || hexv(e[i + 1]) < 0 || hexv(e[i + 2]) < 0) { okAlpha = false; break; }
-                ++trip;
+                if (&ns == &(*sets)[0]) ++trip;     // counted for the "unreserved" set only
                 i += 2;
             } else if (!ns.set[c]) { okAlpha = false; break; }
         }
